@@ -8,3 +8,4 @@ pub mod jwt;
 pub mod b64;
 pub mod router;
 pub mod sse;
+pub mod httpreq;
